@@ -704,6 +704,31 @@ def r12_unit_scale(ctx):
                           "and refill its own unit" % (
                               kwname(kwvar, lo), U(t), decs, incs, lo),
                           ("C04",))
+                # the refill is one of the next unit up, in this unit
+                radix = {0: 60, 1: 60, 2: 24}[chain.index((lo, hi))]
+                for st in n.body:
+                    if isinstance(st, ast.AugAssign) and isinstance(
+                            st.op, ast.Add) and U(st.target) == lo:
+                        from ..linear import lin
+                        k = lin(st.value, {}).const()
+                        key = ctx.fkey(sub, None, "refill:%s" % kwname(
+                            kwvar, lo))
+                        if k is None:
+                            rep.undecided("R12.borrow-chain", key,
+                                          sub.loc(st), "the refill `%s` is "
+                                          "not a constant this rule reads"
+                                          % U(st.value), ("C04", "C18"))
+                        else:
+                            rep.check(
+                                k == radix, "R12.borrow-chain", key,
+                                sub.loc(st), "the borrow refills %s with one "
+                                "%s (%d)" % (lo, hi, radix),
+                                "TimePoint.__sub__ takes one from %s and "
+                                "gives %s `%s` (= %s) of its own unit; one "
+                                "of the next unit up is %d: every "
+                                "difference that borrows here is off by "
+                                "%s" % (hi, lo, U(st.value), k, radix,
+                                        k - radix), ("C04", "C18"))
                 break
     if found == 0:
         rep.undecided("R12.borrow-chain", ctx.fkey(sub, None, "borrow"),
